@@ -185,7 +185,8 @@ fn normalise_panic(msg: &str) -> String {
 fn panic_counts_for(prop: &str, phase: &str) -> bool {
     match prop {
         "C02" => phase == "query",
-        "C04" => matches!(phase, "make" | "undo") || phase.starts_with("bracket"),
+        // a panic inside the bracketed search itself is C07's subject, not C04's
+        "C04" => matches!(phase, "make" | "undo") || (phase.starts_with("bracket") && phase != "bracket-search"),
         "C05" => matches!(phase, "make" | "undo" | "rebuild"),
         "C06" => matches!(phase, "verdict" | "annotate"),
         "C07" => matches!(phase, "search"),
